@@ -263,7 +263,7 @@ def classify_while(loop, f, model, cg, sentinel_ok=None):
             flag = fl.targets[0].id
             # `if not flag: break`, also as one disjunct of a merged exit test (`if out_of_data or not flag: break`)
             exits = [s for s in top if isinstance(s, ast.If) and any(isinstance(b, (ast.Break, ast.Return)) for b in s.body)
-                     and [(flag, False)] in sem.dnf(sem.cond_formula(s.test))]
+                     and any(len(cj) == 1 and cj[0][:2] == (flag, False) for cj in sem.dnf(sem.cond_formula(s.test)))]
             sets = [a for a in assigned.get(flag, []) if a is not fl]
             if not exits:
                 # the retry structure is there (a progress flag reset every round and set on success) but no round ends the
